@@ -411,6 +411,23 @@ static void cs_step(char **tok, int n) {
 		} RLC_CATCH_ANY {
 			tr_str("W_HASH THROWN\n");
 		}
+	} else if (!strcmp(it, "W_STR")) {
+		/* text conversion of a seeded integer in a seeded radix, and back */
+		bn_t a, b;
+		char str[300];
+		int radix = 2 + (n > 1 ? atoi(tok[1]) : 8) % 63;
+		bn_null(a); bn_null(b);
+		RLC_TRY {
+			bn_new(a); bn_new(b);
+			bn_rand(a, RLC_POS, 190);
+			bn_write_str(str, sizeof(str), a, radix);
+			bn_read_str(b, str, strlen(str), radix);
+			tr_printf("W_STR r=%d s=%s eq=%d\n", radix, str, bn_cmp(a, b) == RLC_EQ);
+		} RLC_CATCH_ANY {
+			tr_str("W_STR THROWN\n");
+		} RLC_FINALLY {
+			bn_free(a); bn_free(b);
+		}
 	} else if (!strcmp(it, "W_SSS")) {
 		bn_t x[4], y[4], sec, key, ord_;
 		bn_null(sec); bn_null(key); bn_null(ord_);
